@@ -159,6 +159,13 @@ func evalNameArray(node *jparse.NameNode, data reflect.Value, env *environment) 
 			return undefined, err
 		}
 
+		if seq, ok := asSequence(v); ok {
+			// The item is itself an array. Add the values
+			// selected from it, not the sequence object.
+			results.values = append(results.values, seq.values...)
+			continue
+		}
+
 		if v.IsValid() && v.CanInterface() {
 			results.Append(v.Interface())
 		}
